@@ -349,6 +349,8 @@ class Sim(object):
                 self._render(res)
             else:
                 raise HarnessError("unknown move %r" % (move,))
+            if self.h["held"] and self.status in (st.PAUSING, st.PAUSED):
+                self.h["pend_pause"] = True  # (re-)paused because an action is pending at the provider
         except HarnessError:
             raise
         except Exception as e:  # conductor raised
@@ -510,7 +512,10 @@ class Sim(object):
         a = infl[idx]
         ev = self._event_for(a, st.PENDING, None)
         del infl[idx]
+        if a[2] is not None:
+            self.h["item_went_pending"] = True  # feature for known finding F27 (classification only)
         self.h["held"].append(a)
+        self.h["pend_pause"] = True  # a pending action pauses the workflow; the provider resumes it later
         self.h["need_dispatch"] = True
         res.extra["action"] = list(a)
         res.calls += 1
@@ -544,8 +549,11 @@ class Sim(object):
             self.h["pause_req"] = True
         if status in (st.RUNNING, st.RESUMING) and before in (st.PAUSING, st.PAUSED):
             self.h["pause_req"] = False
-            if before == st.PAUSING and any(a[2] is not None for a in self.h["inflight"]):
-                # feature for known finding F11 (classification only)
+            self.h["pend_pause"] = False
+            if before == st.PAUSING and (any(a[2] is not None for a in self.h["inflight"]) or any(
+                    x[3] == st.PAUSING for x in (self.h.get("interim") or []))):
+                # feature for known finding F11 (classification only): the resume request arrived while
+                # a with-items task had items in flight or an action had already reported pausing
                 self.h["resumed_while_pausing_items"] = True
         if status in (st.CANCELING, st.CANCELED) and after in (st.CANCELING, st.CANCELED):
             self.h["cancel_req"] = True
